@@ -1,6 +1,7 @@
 //@include prelude/header.rs
 use rustpython_parser::{parse, Mode};
-use rustpython_parser::ast::{Stmt, Expr};
+use rustpython_parser::ast::{Stmt, Expr, Keyword, Identifier, Constant, ExceptHandler, ExprCall, Alias, Arguments, ArgWithDefault};
+use rustpython_parser::text_size::TextRange;
 verus! {
 global size_of usize == 8;  // A6: 64-bit target
 pub mod pre {
@@ -14,6 +15,10 @@ use super::*;
 //@include prelude/hof.rs
 //@include prelude/arc.rs
 //@include prelude/index_spec.rs
+//@include prelude/strings.rs
+//@include prelude/iter_ext.rs
+//@include prelude/iter_slice.rs
+//@include prelude/bytes.rs
 //@include build/astspec.rs
 // extra AST / parser types needed by analyze_file_internal
 #[verifier::external_type_specification] #[verifier::reject_recursive_types(R)] pub struct ExMod<R>(rustpython_parser::ast::Mod<R>);
@@ -26,6 +31,9 @@ use super::*;
 #[verifier::external_type_specification] pub struct ExMode(rustpython_parser::Mode);
 #[verifier::external_type_specification] #[verifier::external_body] #[verifier::reject_recursive_types(T)] pub struct ExBaseError<T>(rustpython_parser_core::BaseError<T>);
 #[verifier::external_type_specification] #[verifier::external_body] pub struct ExParseErrorType(rustpython_parser::ParseErrorType);
+//@include prelude/ast_spec.rs
+//@include prelude/line_spec.rs
+//@include prelude/visit_spec.rs
 //@include prelude/analyze_spec.rs
 //@include prelude/analyze_l2.rs
 } // mod pre
@@ -36,12 +44,16 @@ use pre::*;
 //@dbstruct_arc definitions file_definitions usages usage_by_fixture definitions_version file_cache undeclared_fixtures imports
 
 //@include prelude/index_dbspecs.rs
+//@include prelude/visit_dbspecs.rs
 
 /// canonicalisation of a path (file-system fact; get_canonical_path memoises it)
 pub uninterp spec fn canon(p: PV) -> PV;
 
 pub assume_specification[ rustpython_parser::parse ](source: &str, mode: rustpython_parser::Mode, source_path: &str) -> (r: Result<rustpython_parser::ast::Mod, rustpython_parser::ParseError>)
-    ensures match r { Ok(m) => parse_ok(source@) && m == ast_of(source@), Err(_) => !parse_ok(source@) };
+    ensures match r {
+        // A8: parser positions (module_pre, prelude/analyze_spec.rs)
+        Ok(m) => parse_ok(source@) && m == ast_of(source@) && module_pre(body_of(m), src_line_index(source@)),
+        Err(_) => !parse_ok(source@) };
 
 
 impl FixtureDatabase {
@@ -57,24 +69,15 @@ impl FixtureDatabase {
         ensures pbv(&r) == canon(pbv(&path))
     { unimplemented!() }
     #[verifier::external_body]
+    /// memoised build_line_index (unit line_index proves is_line_index for build_line_index)
     pub(crate) fn get_line_index(&self, file_path: &Path, content: &str) -> (r: Arc<Vec<usize>>)
+        ensures (*r)@ == src_line_index(content@), is_line_index(ints((*r)@)),
     { unimplemented!() }
     #[verifier::external_body]
     fn collect_module_level_names(&self, stmt: &Stmt, names: &mut HashSet<String>)
     { unimplemented!() }
-    /// A7: the visitor changes the index only by record_fixture_definition / record_fixture_usage calls for the
-    /// analysed file (vdefs / vuses), may push undeclared findings for that file, and touches nothing else
-    #[verifier::external_body]
-    fn visit_stmt(&mut self, stmt: &Stmt, file_path: &PathBuf, _is_conftest: bool, content: &str, line_index: &[usize])
-        ensures
-            final(self).defs() == push_defs(old(self).defs(), vdefs(*stmt, pbv(file_path), content@)),
-            final(self).fdefs() == add_fdefs(old(self).fdefs(), vdefs(*stmt, pbv(file_path), content@)),
-            final(self).uses() == push_uses(old(self).uses(), vuses(*stmt, pbv(file_path), content@)),
-            final(self).byfix() == push_byfix(old(self).byfix(), vuses(*stmt, pbv(file_path), content@)),
-            final(self).file_cache == old(self).file_cache,
-            final(self).imports == old(self).imports,
-            final(self).version() >= old(self).version(),   // no u64 wrap-around of the counter
-    { unimplemented!() }
+    // A7 DISCHARGED: the contract of visit_stmt is the one PROVED in unit visit
+//@stub visit visit_stmt
     #[verifier::external_body]
     pub(crate) fn evict_cache_if_needed(&mut self)
         ensures final(self).definitions == old(self).definitions, final(self).file_definitions == old(self).file_definitions,
@@ -90,6 +93,8 @@ impl FixtureDatabase {
 @wrapexpr 1 `file_path .file_name() .map(|n| n == "conftest.py") .unwrap_or(false)` => `Self::vp_is_conftest(&file_path)` with fn vp_is_conftest(file_path: &PathBuf) -> bool
 @sig
     requires old(self).version() < u64::MAX,
+        // no wrap-around of the u64 version counter during this analysis (one bump per recorded definition)
+        parse_ok(content@) ==> old(self).version() + 1 + stmts_vdefs(body_of(ast_of(content@)), canon(pbv(&file_path)), content@).len() <= u64::MAX,
     ensures
         // O1 (C07): every analysis moves the version
         final(self).version() != old(self).version(),
@@ -108,6 +113,8 @@ impl FixtureDatabase {
             &&& final(self).uses() == push_uses(old(self).uses().remove(f), stmts_vuses(body, f, content@))
             &&& final(self).byfix() == push_byfix(clean_byfix(old(self).byfix(), f), stmts_vuses(body, f, content@))
         }),
+@start
+    let ghost f0 = canon(pbv(&file_path));
 @after file_path 3
     let ghost f = pbv(&file_path);
 @before is_conftest 1
@@ -121,7 +128,7 @@ impl FixtureDatabase {
     }
 @before for 1
     let ghost body = module.body@;
-    proof { assert(body == body_of(ast_of(content@))); }
+    proof { assert(body == body_of(ast_of(content@))); assert(f == f0); }
 @loopvar 1 it0
 @loop 1
     invariant self.definitions == old(self).definitions || true,
@@ -129,13 +136,16 @@ impl FixtureDatabase {
 @loop 2
     invariant
         f == pbv(&file_path), body == module.body@, it.seq() == body.as_ref(),
-        self.version() > old(self).version(),
+        (*line_index)@ == src_line_index(content@), is_line_index(ints((*line_index)@)), module_pre(body, (*line_index)@),
+        old(self).version() + 1 + stmts_vdefs(body, f, content@).len() <= u64::MAX,
+        self.version() == old(self).version() + 1 + stmts_vdefs(body.take(it.index@ as int), f, content@).len(),
         self.defs() == push_defs(d0, stmts_vdefs(body.take(it.index@ as int), f, content@)),
         self.fdefs() == add_fdefs(fd0, stmts_vdefs(body.take(it.index@ as int), f, content@)),
         self.uses() == push_uses(u0, stmts_vuses(body.take(it.index@ as int), f, content@)),
         self.byfix() == push_byfix(b0, stmts_vuses(body.take(it.index@ as int), f, content@)),
 @loopstart 2
     let ghost i0 = it.index@ as int;
+    proof { assert(body[i0] == *stmt); assert(visit_pre(body[i0], (*line_index)@)); }
 @loopend 2
     proof {
         assert(body[i0] == *stmt);
@@ -147,6 +157,8 @@ impl FixtureDatabase {
         lemma_add_fdefs_concat(fd0, stmts_vdefs(t0, f, content@), vdefs(body[i0], f, content@));
         lemma_push_uses_concat(u0, stmts_vuses(t0, f, content@), vuses(body[i0], f, content@));
         lemma_push_byfix_concat(b0, stmts_vuses(t0, f, content@), vuses(body[i0], f, content@));
+        lemma_stmts_vdefs_len_mono(body, i0 + 1, f, content@);
+        lemma_bumpn_no_wrap((old(self).version() + 1 + stmts_vdefs(t0, f, content@).len()) as u64, vdefs(body[i0], f, content@).len() as int);
     }
 @after for 2
     proof { assert(body.take(body.len() as int) =~= body); }
@@ -159,7 +171,11 @@ impl FixtureDatabase {
 @wrapexpr 1 `file_path .file_name() .map(|n| n == "conftest.py") .unwrap_or(false)` => `Self::vp_is_conftest2(&file_path)` with fn vp_is_conftest2(file_path: &PathBuf) -> bool
 @sig
     requires old(self).version() < u64::MAX,
+        // no wrap-around of the u64 version counter during this analysis (one bump per recorded definition)
+        parse_ok(content@) ==> old(self).version() + 1 + stmts_vdefs(body_of(ast_of(content@)), canon(pbv(&file_path)), content@).len() <= u64::MAX,
     ensures parse_ok(content@) ==> final(self).uses() == old(self).uses(),
+@start
+    let ghost f0 = canon(pbv(&file_path));
 @after file_path 3
     let ghost f = pbv(&file_path);
 @before is_conftest 1
@@ -173,7 +189,7 @@ impl FixtureDatabase {
     }
 @before for 1
     let ghost body = module.body@;
-    proof { assert(body == body_of(ast_of(content@))); }
+    proof { assert(body == body_of(ast_of(content@))); assert(f == f0); }
 @loopvar 1 it0
 @loop 1
     invariant self.definitions == old(self).definitions || true,
@@ -181,13 +197,16 @@ impl FixtureDatabase {
 @loop 2
     invariant
         f == pbv(&file_path), body == module.body@, it.seq() == body.as_ref(),
-        self.version() > old(self).version(),
+        (*line_index)@ == src_line_index(content@), is_line_index(ints((*line_index)@)), module_pre(body, (*line_index)@),
+        old(self).version() + 1 + stmts_vdefs(body, f, content@).len() <= u64::MAX,
+        self.version() == old(self).version() + 1 + stmts_vdefs(body.take(it.index@ as int), f, content@).len(),
         self.defs() == push_defs(d0, stmts_vdefs(body.take(it.index@ as int), f, content@)),
         self.fdefs() == add_fdefs(fd0, stmts_vdefs(body.take(it.index@ as int), f, content@)),
         self.uses() == push_uses(u0, stmts_vuses(body.take(it.index@ as int), f, content@)),
         self.byfix() == push_byfix(b0, stmts_vuses(body.take(it.index@ as int), f, content@)),
 @loopstart 2
     let ghost i0 = it.index@ as int;
+    proof { assert(body[i0] == *stmt); assert(visit_pre(body[i0], (*line_index)@)); }
 @loopend 2
     proof {
         assert(body[i0] == *stmt);
@@ -199,6 +218,8 @@ impl FixtureDatabase {
         lemma_add_fdefs_concat(fd0, stmts_vdefs(t0, f, content@), vdefs(body[i0], f, content@));
         lemma_push_uses_concat(u0, stmts_vuses(t0, f, content@), vuses(body[i0], f, content@));
         lemma_push_byfix_concat(b0, stmts_vuses(t0, f, content@), vuses(body[i0], f, content@));
+        lemma_stmts_vdefs_len_mono(body, i0 + 1, f, content@);
+        lemma_bumpn_no_wrap((old(self).version() + 1 + stmts_vdefs(t0, f, content@).len()) as u64, vdefs(body[i0], f, content@).len() as int);
     }
 @after for 2
     proof { assert(body.take(body.len() as int) =~= body); }
